@@ -92,6 +92,7 @@ def sums_post(it, res, vs, k, objective_of):
 
 class ExactPartition(FunctionContract):
     tier = "T2"
+    knows_lite = True
     min_obligations = 4
     unroll_limit = 400
     timeout_ms = 60000
@@ -101,6 +102,8 @@ class ExactPartition(FunctionContract):
         self._sq, self._st, self.manager = shapes_quick, shapes_thorough, manager
 
     def shapes(self, level):
+        if level == "lite":          # secondary use by another property (e.g. only the opacity obligations are claimed): small shapes
+            return [sh for sh in self._sq if sh[0] <= 3]
         return list(self._sq if level == "quick" else self._st)
 
     def shape_text(self, s):
